@@ -41,7 +41,7 @@ class PSNode(Node):
                 share_completed = (self.ps_threshold * current_period) / max(self.last_occupancy, self.ps_threshold)
             else:
                 share_completed = 0
-            ind.time_left -= share_completed
+            ind.time_left = max(ind.time_left - share_completed, 0.0)
             ind.service_end_date = self.simulation.current_time + ((ind.time_left * max(next_occupancy, self.ps_threshold)) / self.ps_threshold)
             ind.date_last_update = self.simulation.current_time
 
